@@ -19,6 +19,37 @@ def gen_case(seed, i, engine, n_clients):
     return c
 
 
+def gone_case(seed, i, engine):
+    """requests whose caller is gone before the backend sees them (`gone=1`: the context is already cancelled - the unary
+    deadline passed or the client hung up while the request was queued) between ordinary ones, on the engines that ignore the
+    context of a commit (in-memory, Badger): whatever such a request is answered, the revision dealt for it is resolved -
+    the read revision reaches every revision handed out and later writes become readable"""
+    from .. import hist
+    from ..gen import PREFIX, hx
+    r = rng_for(seed, "c04g/%d" % i)
+    keys = r.sample(KEY_POOL[:8], r.randint(2, 4))
+    sh = hist.Shadow()
+    lines = [hist.cfg_line(engine)]
+    for ln in hist.gen_writes(r, sh, r.randint(6, 16), keys, p_ok=0.8):
+        if ln.split()[0] in ("create", "update", "delete") and r.random() < 0.35:
+            ln += " gone=1"
+        lines.append(ln)
+    lines += ["rev", "list %s %s 0 0" % (hx(PREFIX + b"/"), hx(PREFIX + b"0"))]
+    return core.Case("backend", lines, {"engine": engine, "gone": True})
+
+
+def gone_oracle(case):
+    top = 0
+    for i, (line, out) in enumerate(zip(case.lines, case.impl)):
+        t, o = line.split(), out.split()
+        if t[0] in ("create", "update", "delete") and len(o) >= 3 and o[2].isdigit():
+            top = max(top, int(o[2]))
+        elif t[0] == "rev" and len(o) == 2 and o[1].isdigit() and int(o[1]) < top:
+            return ("line %d: every request has returned and revision %d was handed out, but the read revision stays at %s "
+                    "(waited): a dealt revision was never resolved" % (i + 1, top, o[1]), "stalled")
+    return None
+
+
 def check(rep, tier, seed):
     n, n_clients = (45, 4) if tier == "quick" else (6000, 6)
     cases = [gen_case(seed, i, ENGINES[i % 3], n_clients if i % 2 else 3) for i in range(n)]
@@ -38,8 +69,9 @@ def check(rep, tier, seed):
     for c in rcases:
         c.meta["retry"] = True
     cases += rcases
+    cases += [gone_case(seed, i, ["memkv", "badger"][i % 2]) for i in range(8 if tier == "quick" else 400)]
     core.run_cases(cases)
-    pick = lambda c: c09.oracle(c, only="stalled") if c.meta.get("retry") else sched.oracle_c04(c)
+    pick = lambda c: gone_oracle(c) if c.meta.get("gone") else c09.oracle(c, only="stalled") if c.meta.get("retry") else sched.oracle_c04(c)
     if core.judge(rep, "C04", cases, pick):
         return
     rep.cov["stepped_repair_placements"] = n_spl
